@@ -117,6 +117,9 @@ def runCloseModel (c : CaseIn) : String :=
           let res := if s2.workers[idx]? = some .running then "adm" else "ref"
           go r s2 held blocked ((a ++ ":" ++ res) :: acc)
         | none => go r s held blocked ((a ++ ":lost") :: acc)
+      else if kind = "wO" then
+        -- a connection stalled in the body of an oversized message: nothing is admitted
+        go r s held blocked ((a ++ ":stall") :: acc)
       else if kind = "wP" then
         -- the closing check: refused at once when closing is set, otherwise held before wg.Add
         if s.closing then go r ((Conc.step (.worker idx) s).getD s) held blocked ((a ++ ":ref") :: acc)
@@ -166,6 +169,9 @@ def runHeapModel (c : CaseIn) : String :=
 def runDirect (c : CaseIn) (kind : String) : ModelOut :=
   if kind = "params" then
     { out := "", ev := "n=" ++ toString (paramCount c.inp) ++ ";z=1", ending := "c", unsup := false, stuffed := false }
+  else if kind = "errnil" then
+    { out := renderOut [(BMsg.error (errorBody (flatten none))).encode, (BMsg.ready (ch 'I')).encode], ev := "",
+      ending := "c", unsup := false, stuffed := false }
   else if kind = "heap" then
     { out := "", ev := runHeapModel c, ending := "c", unsup := false, stuffed := false }
   else if kind = "close" then
@@ -227,6 +233,14 @@ def clientItems (L : Nat) (inp : Bytes) : List Item :=
 /-- C17 oracle: the i-th ErrorResponse of the implementation must parse, under the strict
     grammar, to exactly `Spec.expectedFields` of the error the i-th failing query specifies -/
 def oracleErrors (c : CaseIn) (chunks : List Bytes) : Option String :=
+  if get c.kv "direct" = "errnil" then
+    -- a nil error: severity FATAL, SQLSTATE XX000 (internal error), a non-empty message
+    match (implFrames chunks).find? (·.1 = ch 'E') with
+    | none => some "C17:nil-error-not-reported"
+    | some (_, body) =>
+      if parseErrFields (body.length + 1) body = some Spec.nilFields then none
+      else some ("C17:nil-error-fields:" ++ hexOf body)
+  else
   let items := clientItems (effLimit c.cfg.L) c.inp
   let errs : List Err := items.filterMap fun it => match it with
     | .msg t body => if t = ch 'Q' then
@@ -330,9 +344,13 @@ def oracleExpect (c : CaseIn) (chunks : List Bytes) (rkv : KV) : Option String :
       let good := (((want.drop 1).toString.splitOn ";").filter (· ≠ ""))
       let rows := bevs.filter (·.startsWith "b+")
       if rows = good.take rows.length then none else some (c.camp ++ ":fabricated-row:got=" ++ ";".intercalate rows)
+  let chkBT : Option String := match c.kv.lookup "xbt" with
+    | none => none
+    | some _ => if bevs.contains "b." then some (c.camp ++ ":stream-truncated-inside-a-row-reported-as-complete") else none
   (chk "xp" afterZ).orElse fun _ =>
   chkEv.orElse fun _ =>
   chkB.orElse fun _ =>
+  chkBT.orElse fun _ =>
   chkBK.orElse fun _ =>
   chkBG.orElse fun _ =>
   chkK.orElse fun _ =>
@@ -577,7 +595,21 @@ def oracleSimple (c : CaseIn) (chunks : List Bytes) (rkv : KV) : Option String :
         | some s => segments r (some (e :: s)) acc
         | none => segments r none acc
   let sgs := segments evs none []
-  if get rkv "end" = "w" ∧ cycles.length ≠ nQ then some ("C05:cycles=" ++ toString cycles.length ++ "/queries=" ++ toString nQ)
+  -- a blank query (only white space) is answered EmptyQueryResponse + ReadyForQuery without
+  -- consulting the parser; any other query is not
+  let qtexts : List Bytes := (clientItems (effLimit c.cfg.L) c.inp).filterMap fun it => match it with
+    | .msg t b => if t = ch 'Q' then (cstr b).map (·.1) else none
+    | _ => none
+  let blankBad : Option String := (qtexts.zip cycles).findSome? fun (q, cy) =>
+    if isBlank q ∧ cy ≠ ['I', 'Z'] then some ("C05:blank-query-not-answered-with-EmptyQueryResponse:" ++ String.ofList cy)
+    else if !isBlank q ∧ cy = ['I', 'Z'] then some "C05:EmptyQueryResponse-for-a-non-blank-query"
+    else none
+  let nParse := evs.countP (·.startsWith "P:")
+  let nNonBlank := (qtexts.take cycles.length).countP fun q => !isBlank q
+  if blankBad.isSome ∧ qtexts.length = nQ then blankBad
+  else if get rkv "end" = "w" ∧ cycles.length = nQ ∧ qtexts.length = nQ ∧ nParse ≠ nNonBlank then
+    some ("C05:parser-calls=" ++ toString nParse ++ "/non-blank-queries=" ++ toString nNonBlank)
+  else if get rkv "end" = "w" ∧ cycles.length ≠ nQ then some ("C05:cycles=" ++ toString cycles.length ++ "/queries=" ++ toString nQ)
   else match cycles.find? (fun cy => !cycleOk cy) with
     | some cy => some ("C05:cycle-grammar:" ++ String.ofList cy)
     | none =>
@@ -659,7 +691,10 @@ def oracleAuth (c : CaseIn) (chunks : List Bytes) (rkv : KV) : Option String :=
     let frames := implFrames chunks
     let hasAuthOk := frames.any fun (t, b) => t = ch 'R' ∧ b = be32 0
     let evs := ((get rkv "ev").splitOn ";").filter (· ≠ "")
-    if accepted then (if hasAuthOk then none else some "C01:accepted-but-no-AuthenticationOk")
+    let nAuthOk := frames.countP fun (t, b) => t = ch 'R' ∧ b = be32 0
+    if accepted then (if nAuthOk = 1 then none
+      else if nAuthOk = 0 then some "C01:accepted-but-no-AuthenticationOk"
+      else some "C12:AuthenticationOk-sent-more-than-once")
     else if hasAuthOk then some "C01:AuthenticationOk-without-acceptance"
     else if frames.any (fun (t, _) => t = ch 'S' ∨ t = ch 'Z') then some "C01:session-messages-without-acceptance"
     else if evs.any (fun e => !(e.startsWith "V:")) then some ("C01:callback-without-acceptance:" ++ (get rkv "ev").take 60)
